@@ -130,3 +130,32 @@ def is_single(desc):
 def is_nominal(desc):
     it = interval_tuple(desc)
     return bool(it[0] or it[1])
+
+
+def clamp_descs(mode):
+    """deterministic descriptions whose anchors sit where month/year steps
+    clamp: leap day, 31 January, day 366, week 53 - in each representation,
+    notation 3 and 4, unbounded and bounded"""
+    out = []
+    anchors = []
+    for y in (2020, 2024):
+        rd = R.ymd_to_rd(mode, y, 2, R.month_len(mode, y, 2))
+        anchors.append(rd)
+        anchors.append(R.ymd_to_rd(mode, y, 1, R.month_len(mode, y, 1)))
+        anchors.append(R.days_before_year(mode, y) + R.year_len(mode, y) - 1)
+        anchors.append(R.week_start(mode, y + 1) - 3)
+    for i, rd in enumerate(anchors):
+        for rep in gen.REPS:
+            a = gen.date_kwargs(mode, rep, rd)
+            a.update({"hour_of_day": 6 * (i % 4), "minute_of_hour": 0,
+                      "second_of_minute": 0})
+            a.update(gen.zone_kwargs(((0, 0), (5, 30), (-3, -30))[i % 3]))
+            for dkw in ({"years": 1}, {"years": 4}, {"months": 1},
+                        {"years": 1, "months": 1}, {"months": 1, "days": 1}):
+                for fmt in (3, 4):
+                    for reps in (None, 6):
+                        d = {"mode": mode, "fmt": fmt, "reps": reps,
+                             "dur": dict(dkw)}
+                        d["start" if fmt == 3 else "end"] = dict(a)
+                        out.append(d)
+    return out
